@@ -107,7 +107,7 @@ def n_candidates(cand, yid):
 @st.composite
 def pool_case(draw, names, allow_feat=True, max_n=None, force_cand=None,
               encodings=("float_nan",), batch_sizes=None, min_unlabeled=1,
-              fixed=None):
+              fixed=None, vary_model=False):
     name = draw(st.sampled_from(names))
     ent = poolreg.base_entry(name)
     fixed = fixed or {}
@@ -133,6 +133,10 @@ def pool_case(draw, names, allow_feat=True, max_n=None, force_cand=None,
     if task == "reg" and enc not in poolreg.REG_SENTINELS:
         enc = "float_nan"
     opts = {"gamma": draw(st.sampled_from([0.3, 1.0, 3.0]))}
+    if vary_model and ent["model"] and ent["model"][0] == "clf" and \
+            ent["model"][1] == "pwc" and ent["cls"] in poolreg.ANY_CLF:
+        opts["model_key"] = draw(st.sampled_from(
+            ["pwc", "pwc", "gnb", "lr", "tree_clf", "pwc_default"]))
     if poolreg.is_wrapper(name):
         opts["max_candidates_int"] = draw(st.integers(1, 6))
         opts["max_candidates_float"] = draw(st.sampled_from(
